@@ -13,7 +13,7 @@ import hashlib
 import hmac as pyhmac
 import random
 
-from ..core import B, outcome
+from ..core import toy_guard, B, outcome
 from ..toycurve import curve_params, toy
 from .c03 import le, N256, P256
 
@@ -201,12 +201,6 @@ def run(ctx):
                        "abscissa of a known nonce point is taken to be invalid (finding one is the discrete-log problem)",
                        "x(kG) >= n cannot be exhibited on secp256k1 (probability 2^-128); toy curves have n > p for the same reason",
                        "HMAC-SHA256 rows are certified with CPython hmac/hashlib"]
-    if ctx.want("toy"):
-        curves = TOY[:2] if q else TOY
-        tabs = toy_tables(ctx, curves, ["ecdsa", "ecdsa-verify"], lambda n: (3 if n > 13 else n + 2) if q else (8 if n > 13 else (2 * n + 1)), lambda n: (2 * n + 1) if n <= 13 else (n + 2))      # (TLC builds no set above 10^6 rows)
-        replay_ecdsa_toy(ctx, tabs)
-        ctx.exhaustive.append("toy groups %s: every secret, nonce, digest in 0..ZMAX and every (r, s) in (0..2n+1)^2: Complete, LowS, curve-arithmetic verdict = discrete-log verdict" % curves)
-        ctx.sample({"toy_verify_row": tabs[1][2]["rows"][7] if tabs[1][2] else None})
     if ctx.want("real"):
         cases = real_cases(ctx, rng, 10 if q else 120)
         byid = {c["id"]: c for c in cases}
@@ -218,3 +212,11 @@ def run(ctx):
             ctx.violation("real-%s:%s:%s" % (c["kind"], why, cls), "secp256k1 %s case %s (%s): %s %s" % (c["kind"], cid, cls, why, c.get("raw", "")),
                           {"kind": "case", "case": {k: v for k, v in c.items() if k != "hm"}})
         ctx.sample({k: v for k, v in cases[1].items() if k in ("id", "kind", "name", "accepted")})
+    def _toy_part():
+        curves = TOY[:2] if q else TOY
+        tabs = toy_tables(ctx, curves, ["ecdsa", "ecdsa-verify"], lambda n: (3 if n > 13 else n + 2) if q else (8 if n > 13 else (2 * n + 1)), lambda n: (2 * n + 1) if n <= 13 else (n + 2))      # (TLC builds no set above 10^6 rows)
+        replay_ecdsa_toy(ctx, tabs)
+        ctx.exhaustive.append("toy groups %s: every secret, nonce, digest in 0..ZMAX and every (r, s) in (0..2n+1)^2: Complete, LowS, curve-arithmetic verdict = discrete-log verdict" % curves)
+        ctx.sample({"toy_verify_row": tabs[1][2]["rows"][7] if tabs[1][2] else None})
+    if ctx.want("toy"):
+        toy_guard(ctx, _toy_part)
